@@ -85,6 +85,36 @@ def variant_attr_variants(rnd):
             ("doc-mentions-rename", ['#[doc = "rename = \\"nope\\" skip"]']), ("rename-to-own-name", ['#[serde(rename = "@OWN@")]'])]
 
 
+def container_extras(kind, ra, n):
+    """other container-level serde keys, none of which changes a field key or a unit variant's literal (the oracle crate compiles the
+    same attributes, so real serde says what they do). -> (attribute lines, rename_all still to be emitted by the struct/enum writer?)"""
+    other = [r for r in RENAME_ALL if r and r != ra]
+    o = other[n % len(other)]
+    both = [[], ['#[serde(rename = "WireName%d")]' % n], ['#[serde(crate = "serde")]'], ['#[serde(bound = "")]'], ['#[serde(deny_unknown_fields)]'],
+            ['#[serde(expecting = "rename_all = \\"UPPERCASE\\"")]']]
+    if ra:
+        both += [("inline", '#[serde(rename = "WireName%d", rename_all = "%s")]' % (n, ra)), ("inline", '#[serde(rename_all = "%s", deny_unknown_fields)]' % ra),
+                 ("inline", '#[serde(deny_unknown_fields, rename_all = "%s", bound = "")]' % ra)]
+    if kind == "enum":
+        both += [['#[serde(rename_all_fields = "%s")]' % o]]
+        if ra:
+            both += [("inline", '#[serde(rename_all_fields = "%s", rename_all = "%s")]' % (o, ra)), ("inline", '#[serde(rename_all = "%s", rename_all_fields = "%s")]' % (ra, o)),
+                     ("after", '#[serde(rename_all_fields = "%s")]' % o)]
+    c = both[n % len(both)]
+    if isinstance(c, tuple) and c[0] == "inline":
+        return [c[1]], False
+    if isinstance(c, tuple):
+        return [c[1]], True
+    return c, True
+
+
+def container_keys(t):
+    import re
+    lines = " ".join(t.get("extras", ([], True))[0])
+    keys = sorted(set(re.findall(r"[(, ](\w+)(?= = |,|\)\])", lines)) - {"rename_all"})
+    return (" container-keys=" + "+".join(keys)) if keys else ""
+
+
 def build_types(rnd, nstructs, nenums):
     """-> list of dict(kind,name,rename_all,items=[(ident, label, attrs, ty)])"""
     types = []
@@ -111,7 +141,7 @@ def build_types(rnd, nstructs, nenums):
                 if ident not in used and len(items) < 14:
                     used.add(ident)
                     items.append((ident, "none", [], "i32"))
-            types.append({"kind": "struct", "name": "S%d" % n, "rename_all": ra, "items": items})
+            types.append({"kind": "struct", "name": "S%d" % n, "rename_all": ra, "items": items, "extras": container_extras("struct", ra, n)})
             n += 1
     for ra in RENAME_ALL:
         vav = variant_attr_variants(rnd)
@@ -123,7 +153,7 @@ def build_types(rnd, nstructs, nenums):
             for j, ident in enumerate(idents):
                 label, attrs = vav[(j + s) % len(vav)] if j < len(vav) else ("none", [])
                 items.append((ident, label, [a_.replace("@OWN@", ident.replace("r#", "")) for a_ in attrs], None))
-            types.append({"kind": "enum", "name": "E%d" % n, "rename_all": ra, "items": items})
+            types.append({"kind": "enum", "name": "E%d" % n, "rename_all": ra, "items": items, "extras": container_extras("enum", ra, n)})
             n += 1
     return types
 
@@ -134,11 +164,13 @@ def rust_defs(types, for_oracle):
         if t["kind"] == "struct":
             hidden = ("#[validate", "#[serde(skip_serializing)]", "#[serde(skip_deserializing)]", "#[serde(serialize_with", "#[serde(with")
             fields = [(ident, ty, [a for a in attrs if for_oracle is False or not a.startswith(hidden)]) for (ident, label, attrs, ty) in t["items"]]
-            out.append(rg.struct_src(t["name"], fields, rename_all=t["rename_all"], attrs=["#[allow(non_snake_case)]"],
+            ex, emit_ra = t.get("extras", ([], True))
+            out.append(rg.struct_src(t["name"], fields, rename_all=t["rename_all"] if emit_ra else None, attrs=ex + ["#[allow(non_snake_case)]"],
                                      derive_style=rg.DERIVE_STYLES[hash(t["name"]) % len(rg.DERIVE_STYLES)] if False else rg.DERIVE_STYLES[int(t["name"][1:]) % len(rg.DERIVE_STYLES)]))
         else:
-            out.append(rg.enum_src(t["name"], [(ident, attrs) for (ident, label, attrs, _) in t["items"]], rename_all=t["rename_all"],
-                                   attrs=["#[allow(non_camel_case_types)]"], derive_style=rg.DERIVE_STYLES[int(t["name"][1:]) % len(rg.DERIVE_STYLES)]))
+            ex, emit_ra = t.get("extras", ([], True))
+            out.append(rg.enum_src(t["name"], [(ident, attrs) for (ident, label, attrs, _) in t["items"]], rename_all=t["rename_all"] if emit_ra else None,
+                                   attrs=ex + ["#[allow(non_camel_case_types)]"], derive_style=rg.DERIVE_STYLES[int(t["name"][1:]) % len(rg.DERIVE_STYLES)]))
     return "".join(out)
 
 
@@ -306,7 +338,8 @@ def run(tier):
                 blame = diff_items(t, want, got, peritem[t["name"]])
                 for (ident, label, detail) in blame:
                     cls = item_class(t, ident, label)
-                    sig = "C06 %s rename_all=%s attr=%s ident=%s%s" % (t["kind"] == "struct" and "field" or "variant", t["rename_all"], label, cls, stag)
+                    ctag = container_keys(t)
+                    sig = "C06 %s rename_all=%s attr=%s ident=%s%s%s" % (t["kind"] == "struct" and "field" or "variant", t["rename_all"], label, cls, stag, ctag)
                     v.violation(sig, "%s %s (rename_all=%s), item `%s` [%s]: %s; serde names %s, emitted %s (%s mode)" % (
                         t["kind"], t["name"], t["rename_all"], ident, label, detail, want, got, mode),
                         proj.witness_of(project_files([t]), mode, extra={"oracle_names": want}))
